@@ -191,47 +191,22 @@ fn probe<F: UnitTag + Convert<T> + 'static, T: UnitTag + 'static>(obs: &[Obs], o
             rec_of(&m.with_unit::<T>()),
         ));
     }
-    // 3b. the validating ways into a Mean (own collector with its own unit check), and inline
-    // distributions
+    // 3b. a validating way into a Mean (own collector with its own unit check), an inline
+    // distribution and a boxed value, converted; the remaining constructors, which do not depend
+    // on the target unit, are probed once per source unit in `probe_from`
     {
-        let srcs: Vec<Src1<F>> = obs.iter().map(|o| Src1::<F>(o.clone(), PhantomData)).collect();
-        let mut total = 0.0f64;
-        let mut occ: Option<u64> = Some(0);
-        for o in obs {
-            let (t, n) = match o {
-                Obs::U(u) => (*u as f64, 1u64),
-                Obs::Fl(f) => (f.0, 1),
-                Obs::Rep { total, occ } => (total.0, *occ),
-            };
-            total += t;
-            occ = occ.and_then(|x| x.checked_add(n));
-        }
-        // occurrence sums beyond u64 are outside the property (the library adds them unchecked)
-        if let Some(n) = occ.filter(|n| *n > 0) {
-            let expect = vec![Obs::Rep { total: F(total), occ: n }];
-            let to_recs = |r: Result<Mean<F>, metrique_writer_core::ValidationError>| match r {
+        if let Some((total, n)) = mean_of(obs) {
+            let srcs: Vec<Src1<F>> = obs.iter().map(|o| Src1::<F>(o.clone(), PhantomData)).collect();
+            let recs = match Mean::<F>::try_new(srcs.iter()) {
                 Ok(m) => rec_of(&m.with_unit::<T>()),
                 Err(e) => vec![Rec::Value { name: "x".into(), val: RecVal::Error(e.to_string()) }],
             };
-            out.push(mk("mean", expect.clone(), to_recs(Mean::<F>::try_new(srcs.iter()))));
-            let mut m2 = Mean::<F>::default();
-            let r2 = m2.try_extend(srcs.iter()).map(|()| m2);
-            out.push(mk("mean", expect.clone(), to_recs(r2)));
-            let d: Distribution<Src1<F>> = obs.iter().map(|o| Src1::<F>(o.clone(), PhantomData)).collect();
-            out.push(mk("mean", expect, to_recs(d.try_to_mean())));
+            out.push(mk("mean", vec![Obs::Rep { total: F(total), occ: n }], recs));
         }
         let d2: Distribution<Src1<F>, 2> = obs.iter().map(|o| Src1::<F>(o.clone(), PhantomData)).collect();
         out.push(mk("distribution", obs.to_vec(), rec_of(&d2.with_unit::<T>())));
-        let mut d8: Distribution<Src1<F>, 8> = std::iter::empty().collect();
-        for o in obs {
-            d8.add(Src1::<F>(o.clone(), PhantomData));
-        }
-        out.push(mk("distribution", obs.to_vec(), rec_of(&d8.with_unit::<T>())));
-        // smart pointers around the value keep its unit
         let boxed = Box::new(Src::<F>(obs.to_vec(), PhantomData));
         out.push(mk("direct", obs.to_vec(), rec_of(&boxed.with_unit::<T>())));
-        let arc = std::sync::Arc::new(Src::<F>(obs.to_vec(), PhantomData));
-        out.push(mk("direct", obs.to_vec(), rec_of(&arc.with_unit::<T>())));
     }
     // 4. option
     let some: Option<Src<F>> = Some(Src::<F>(obs.to_vec(), PhantomData));
@@ -243,35 +218,80 @@ fn probe<F: UnitTag + Convert<T> + 'static, T: UnitTag + 'static>(obs: &[Obs], o
         out.push(mk("liar", vec![], rec_of(&Liar::<F>(mode, PhantomData).with_unit::<T>())));
     }
     out.push(mk("string", vec![], rec_of(&Stringy::<F>(PhantomData).with_unit::<T>())));
-    // the same through distributions of 1-3 such values (inline and heap storage), bare and
-    // under a declared unit: the distribution itself has to notice
+    // the same through a distribution under a declared unit: the distribution itself has to notice
     for mode in 0..4u8 {
         let n = 1 + (mode as usize + obs.len()) % 3;
-        let d: Distribution<Liar<F>> = (0..n).map(|_| Liar::<F>(mode, PhantomData)).collect();
-        out.push(mk("liar", vec![], rec_of(&d)));
         let d0: metrique_writer::value::VecDistribution<Liar<F>> =
             (0..(1 + (n % 2))).map(|_| Liar::<F>(mode, PhantomData)).collect();
         out.push(mk("liar", vec![], rec_of(&d0.with_unit::<T>())));
     }
+}
+
+/// sum and occurrence count a Mean over these observations must hold (None: nothing recorded, or
+/// the occurrence sum exceeds u64 - the library adds occurrences unchecked, outside the property)
+fn mean_of(obs: &[Obs]) -> Option<(f64, u64)> {
+    let mut total = 0.0f64;
+    let mut occ: Option<u64> = Some(0);
+    for o in obs {
+        let (t, n) = match o {
+            Obs::U(u) => (*u as f64, 1u64),
+            Obs::Fl(f) => (f.0, 1),
+            Obs::Rep { total, occ } => (total.0, *occ),
+        };
+        total += t;
+        occ = occ.and_then(|x| x.checked_add(n));
+    }
+    occ.filter(|n| *n > 0).map(|n| (total, n))
+}
+
+/// constructors and containers that do not depend on a target unit: once per source unit
+fn probe_from<F: UnitTag + 'static>(obs: &[Obs], out: &mut Vec<Probe>) {
+    let mk = |kind, input: Vec<Obs>, output| Probe {
+        kind,
+        from: F::UNIT,
+        to: F::UNIT,
+        input,
+        output,
+    };
+    let err_or = |r: Result<Mean<F>, metrique_writer_core::ValidationError>| match r {
+        Ok(m) => rec_of(&m),
+        Err(e) => vec![Rec::Value { name: "x".into(), val: RecVal::Error(e.to_string()) }],
+    };
+    if let Some((total, n)) = mean_of(obs) {
+        let srcs: Vec<Src1<F>> = obs.iter().map(|o| Src1::<F>(o.clone(), PhantomData)).collect();
+        let expect = vec![Obs::Rep { total: F(total), occ: n }];
+        let mut m2 = Mean::<F>::default();
+        let r2 = m2.try_extend(srcs.iter()).map(|()| m2);
+        out.push(mk("mean", expect.clone(), err_or(r2)));
+        let d: Distribution<Src1<F>> = obs.iter().map(|o| Src1::<F>(o.clone(), PhantomData)).collect();
+        out.push(mk("mean", expect, err_or(d.try_to_mean())));
+    }
+    let mut d8: Distribution<Src1<F>, 8> = std::iter::empty().collect();
+    for o in obs {
+        d8.add(Src1::<F>(o.clone(), PhantomData));
+    }
+    out.push(mk("distribution", obs.to_vec(), rec_of(&d8)));
+    let arc = std::sync::Arc::new(Src::<F>(obs.to_vec(), PhantomData));
+    out.push(mk("arc", obs.to_vec(), rec_of(&arc)));
+    // lying / string elements: bare distributions (inline and heap) and the Mean constructors
+    for mode in 0..4u8 {
+        let n = 1 + (mode as usize + obs.len()) % 3;
+        let d: Distribution<Liar<F>> = (0..n).map(|_| Liar::<F>(mode, PhantomData)).collect();
+        out.push(mk("liar", vec![], rec_of(&d)));
+    }
     let ds: Distribution<Stringy<F>> = (0..(1 + obs.len() % 2)).map(|_| Stringy::<F>(PhantomData)).collect();
     out.push(mk("string", vec![], rec_of(&ds)));
-    {
-        let err_or = |r: Result<Mean<F>, metrique_writer_core::ValidationError>| match r {
-            Ok(m) => rec_of(&m),
-            Err(e) => vec![Rec::Value { name: "x".into(), val: RecVal::Error(e.to_string()) }],
-        };
-        let mode = (obs.len() % 4) as u8;
-        let liars: Vec<Liar<F>> = (0..(1 + obs.len() % 3)).map(|_| Liar::<F>(mode, PhantomData)).collect();
-        out.push(mk("liar", vec![], err_or(Mean::<F>::try_new(liars.iter()))));
-        let mut m = Mean::<F>::default();
-        let r = m.record_value(&liars[0]).map(|()| m);
-        out.push(mk("liar", vec![], err_or(r)));
-        let dl: Distribution<Liar<F>, 4> = (0..(1 + obs.len() % 3)).map(|_| Liar::<F>(mode, PhantomData)).collect();
-        out.push(mk("liar", vec![], err_or(dl.try_to_mean())));
-        out.push(mk("liar", vec![], rec_of(&dl)));
-        let strs = [Stringy::<F>(PhantomData)];
-        out.push(mk("string", vec![], err_or(Mean::<F>::try_new(strs.iter()))));
-    }
+    let mode = (obs.len() % 4) as u8;
+    let liars: Vec<Liar<F>> = (0..(1 + obs.len() % 3)).map(|_| Liar::<F>(mode, PhantomData)).collect();
+    out.push(mk("liar", vec![], err_or(Mean::<F>::try_new(liars.iter()))));
+    let mut m = Mean::<F>::default();
+    let r = m.record_value(&liars[0]).map(|()| m);
+    out.push(mk("liar", vec![], err_or(r)));
+    let dl: Distribution<Liar<F>, 4> = (0..(1 + obs.len() % 3)).map(|_| Liar::<F>(mode, PhantomData)).collect();
+    out.push(mk("liar", vec![], err_or(dl.try_to_mean())));
+    out.push(mk("liar", vec![], rec_of(&dl)));
+    let strs = [Stringy::<F>(PhantomData)];
+    out.push(mk("string", vec![], err_or(Mean::<F>::try_new(strs.iter()))));
 }
 
 fn probe_roundtrip<F: UnitTag + Convert<T> + 'static, T: UnitTag + Convert<F> + 'static>(
@@ -404,6 +424,14 @@ fn check_tag_table() -> Result<(), Fail> {
 }
 
 fn all_pairs(obs: &[Obs], out: &mut Vec<Probe>) {
+    macro_rules! from_each {
+        ($($t:ident),*) => { $( probe_from::<unit::$t>(obs, out); )* };
+    }
+    from_each!(
+        None, Count, Percent, Second, Millisecond, Microsecond, Byte, Kilobyte, Megabyte, Gigabyte, Terabyte, Bit, Kilobit,
+        Megabit, Gigabit, Terabit, BytePerSecond, KilobytePerSecond, MegabytePerSecond, GigabytePerSecond,
+        TerabytePerSecond, BitPerSecond, KilobitPerSecond, MegabitPerSecond, GigabitPerSecond, TerabitPerSecond
+    );
     cross!(probe, obs, out; [Second, Millisecond, Microsecond]; [Second, Millisecond, Microsecond]);
     cross!(probe_roundtrip, obs, out; [Second, Millisecond, Microsecond]; [Second, Millisecond, Microsecond]);
     cross!(probe, obs, out;
